@@ -193,6 +193,33 @@ func init() {
 					return p
 				}
 			}
+			if c.Prob(0.12) {
+				// the *request* stream goes bad (invalid envelope flags, a payload that does not inflate) in front of a handler
+				// that does not care and keeps answering, several messages per Write or in pieces that end inside a message:
+				// whenever the transcoder ends the RPC with its own error, that end is the one disposition and nothing follows it
+				q := genScenario(c, ScenOpts{MaxMsgs: 3, MaxBytes: 60, Segment: true, NoErr: true, Methods: []string{"Bidi"}, Forms: []string{FormGRPC, FormGRPCWeb, FormConnectStream}})
+				if q != nil && len(q.RPCs[0].Client.Msgs) > 0 {
+					rc := &q.RPCs[0]
+					k := len(rc.Client.Msgs) - 1
+					if c.Bool() || rc.Client.Compression == "" {
+						f := Pick(c, 4, 0x40, 0x08, 0x7c)
+						rc.Client.Msgs[k].Flags = &f
+					} else {
+						rc.Client.Msgs[k].RawPayload, rc.Client.Msgs[k].HasRaw, rc.Client.Msgs[k].Compressed = []byte("not compressed at all"), true, true
+						one := 1
+						rc.Client.Msgs[k].Flags = &one
+					}
+					rc.Backend.Lenient = true
+					rc.Backend.Mode = Pick(c, "", "", "duplex")
+					for len(rc.Backend.Resp.Msgs) < 2 {
+						rc.Backend.Resp.Msgs = append(rc.Backend.Resp.Msgs, smallMsg())
+					}
+					rc.Backend.Resp.WriteMode, rc.Backend.Resp.WriteSizes = Pick(c, "", "sizes", "sizes"), Pick(c, []int{3}, []int{7, 50}, []int{1}, []int{6, 1000})
+					rc.Backend.CloseBody = ""
+					q.Note = "request-fault-lenient"
+					return q
+				}
+			}
 			if c.Bool() {
 				// behaviours the transcoder can answer with a valid response: nothing malformed has been forwarded yet
 				p.Note = applyBackendMisbehaviour(c, &p.RPCs[0].Backend.Resp, Pick(c, "cl-exact", "bare", "bad-ct", "omit-end", "end-garbage", "status-text", "flag", "ok-no-message"))
